@@ -510,7 +510,12 @@ func genCborDec(tier string, seed uint64) {
 		}
 	}
 	// every small tag number (and a few large ones) on every kind of item, definite and chunked
-	for tg := uint64(0); tg <= 300; tg++ {
+	wellKnown := []uint64{55799, 55800, 55798, 65535, 65536, 1<<32 - 1, 1 << 32, 1<<63 - 1, 1 << 63, 1<<64 - 1, 1000, 22098, 15309736}
+	for ti := uint64(0); ti <= 300+uint64(len(wellKnown))-1; ti++ {
+		tg := ti
+		if ti > 300 {
+			tg = wellKnown[ti-301]
+		}
 		h := headBytes(0xc0, tg, 0)
 		for _, it := range []string{"00", "4101", "5f42010241 03ff", "7f6161ff", "80", "9fff", "a0", "bf616b01ff", "f6", "fb3ff8000000000000", "d82a4101"} {
 			b, _ := hex.DecodeString(strings.ReplaceAll(it, " ", ""))
